@@ -6,7 +6,7 @@ REPO = os.path.abspath(os.environ.get("BSV_REPO", "/repo"))
 DRIVERS = os.path.join(VERIF, "drivers")
 BUILD = os.path.join(VERIF, ".build")
 CACHE = os.path.join(VERIF, ".cache")
-EVIDENCE = os.path.join(VERIF, "evidence")
+EVIDENCE = os.environ.get("BSV_EVIDENCE") or os.path.join(VERIF, "evidence")
 REPLAYS = os.path.join(EVIDENCE, "replays")
 TOOL = os.path.join(BUILD, "bsv-dump")
 KNOWN_FINDINGS = os.path.join(VERIF, "KNOWN_FINDINGS.txt")
